@@ -180,6 +180,16 @@ ASSUMPTIONS = [
     "(every k for chains with a Slice, k = n/2 otherwise) and a change is reported as a correspondence break without a "
     "failing input. The copy of a chain that has received nothing (k = 0, what lena itself makes) is among the points, "
     "compared in the same way",
+    "selectors: a Filter is built from every documented form of a selector - a plain predicate (the modelled case), a "
+    "class, a context string, a list (Or) / tuple (And) of selectors, Not, and ready Selector / Or / And / Not objects made "
+    "by the caller with raise_on_error False / True / default, nested (key `sel`) - with predicates that raise TypeError on data "
+    "that is not an int and flows that contain such values (seed C05-G: Filter.fill_into calling the raw predicate behind a "
+    "Selector(f, raise_on_error=False)). The statement demanded is the property's own (run, fill_into inside FillSeq / "
+    "FillComputeSeq, a Split branch agree on the values and on the exception that ends them); the Python reference "
+    "(sel_value, from the documentation of Selector: an exception means 'not selected' iff raise_on_error is false; the "
+    "raise_on_error of a container reaches its raw items only) serves PreSafe alone. The Lean model knows predicates as "
+    "total functions Value -> Except Exc Bool (Filter.fill_into / run over ANY such function: filter_consistent); the "
+    "Selector layer (conversion of containers, raise_on_error) is not transcribed: Filters with a `sel` are ORACLE ONLY",
     "FillRequest and FillRequestSeq as such belong to C16; FillSeq "
     "filled value by value has no model of its own: fillRun stands for FillComputeSeq and for FillSeq+compute+Sequence(post), "
     "both real variants are compared with it",
@@ -207,13 +217,16 @@ RULE = ("exhaustive: every pre-processing sequence of length <= 2 over represent
         "element, inside a RunIf, in FillSeq, as a Split branch and in the adapter table; a Split with a sibling of "
         "every type (sequence with/without a context-changing Variable, End, Slice; source from a list / a generator "
         "function; fill_request synthetic / real FillRequest) before, after and on both sides of three chains, "
-        "tagged and untagged, every bufsize, flow with contexts and empty flow. "
+        "tagged and untagged, every bufsize, flow with contexts and empty flow; "
+        "a Filter from 32 representative selectors (every form, both values of raise_on_error, nested) x 3 flows with "
+        "values on which the predicates raise x bufsizes, alone / between a callable and a Slice / inside a RunIf / in the "
+        "post-processing part / as a Split branch next to a stopping sibling and a sequence sibling / op stage. "
         "sampled (seeded): Splits of 2-4 branches of random types (at least one chain) in random order, random "
         "bufsize, tags, prebuilt / bare branches, copy_buf=False for branches that change nothing; "
         "chains pre^{0..3} acc post^{0..3} with random elements in random callable forms (also "
         "elements outside the property's kinds: constructor errors), flows of length 0..8 of ints, (data, context) "
         "pairs and mixed values; Splits of 2-4 fill_compute branches with early-stopping siblings, run and filled; "
-        "single elements on random flows. Non-trivial: a chain with at least one pre- or post-processing element and a "
+        "single elements on random flows; 40 % of the sampled Filters are built from a random selector of any form. Non-trivial: a chain with at least one pre- or post-processing element and a "
         "non-empty result, an accepted adapter, a stage that fills something.")
 CASE_TIMEOUT = 10
 
@@ -468,6 +481,109 @@ def make_pred(p):
     return pred
 
 
+# ---- selectors of every documented form ---------------------------------------------------------------
+# SEL = {"s": "pred", "p": name}                      a plain function (raises TypeError on data that is not an int)
+#     | {"s": "cls", "c": "int"|"str"|"list"}         a class: isinstance(data, cls)
+#     | {"s": "str", "v": key}                        a string: the context contains the key
+#     | {"s": "list", "xs": [SEL..]}                  a list: Or of its items        (raw containers are converted
+#     | {"s": "tuple", "xs": [SEL..]}                 a tuple: And of its items       by Selector with the roe given)
+#     | {"s": "S"|"Not", "x": SEL, "roe": b|None}     Selector(x, raise_on_error=b) / Not(x, raise_on_error=b) made
+#     | {"s": "Or"|"And", "xs": [SEL..], "roe": ..}   by the caller (None: the default, True)
+SEL_CLASSES = {"int": int, "str": str, "list": list}
+SEL_OBJS = ("S", "Not", "Or", "And")
+
+
+def build_sel(s):
+    import lena.flow
+    t = s["s"]
+    if t == "pred":
+        return make_pred(s["p"])
+    if t == "cls":
+        return SEL_CLASSES[s["c"]]
+    if t == "str":
+        return s["v"]
+    if t == "list":
+        return [build_sel(x) for x in s["xs"]]
+    if t == "tuple":
+        return tuple(build_sel(x) for x in s["xs"])
+    kw = {} if s.get("roe") is None else {"raise_on_error": s["roe"]}
+    if t == "S":
+        return lena.flow.Selector(build_sel(s["x"]), **kw)
+    if t == "Not":
+        return lena.flow.Not(build_sel(s["x"]), **kw)
+    if t == "Or":
+        return lena.flow.Or([build_sel(x) for x in s["xs"]], **kw)
+    if t == "And":
+        return lena.flow.And(tuple(build_sel(x) for x in s["xs"]), **kw)
+    raise ValueError(t)
+
+
+def _sel_roe(s):
+    return True if s.get("roe") is None else bool(s["roe"])
+
+
+def _sel_inner(s, v, roe):
+    t = s["s"]
+    if t == "pred":
+        return _pred_value(s["p"], v)
+    if t == "cls":
+        return isinstance(v[0] if _has_context(v) else v, SEL_CLASSES[s["c"]])
+    if t == "str":
+        return s["v"] in (v[1] if _has_context(v) else {})
+    if t == "list":
+        return any(_sel_item(x, v, roe) for x in s["xs"])
+    if t == "tuple":
+        return all(_sel_item(x, v, roe) for x in s["xs"])
+    return _sel_obj(s, v)           # a ready selector object is used as a callable
+
+
+def _sel_conv(s, v, roe):
+    """Selector(x, raise_on_error=roe)(v) as documented: an exception means "not selected" if roe is false"""
+    try:
+        return _sel_inner(s, v, roe)
+    except Exception:
+        if roe:
+            raise
+        return False
+
+
+def _sel_item(s, v, roe):
+    """an item of a container: a Selector object is taken as it is, anything else is converted with the container's roe"""
+    return _sel_obj(s, v) if s["s"] in SEL_OBJS else _sel_conv(s, v, roe)
+
+
+def _sel_obj(s, v):
+    t, roe = s["s"], _sel_roe(s)
+    if t == "S":
+        return _sel_conv(s["x"], v, roe)
+    if t == "Not":
+        return not _sel_conv(s["x"], v, roe)
+    if t == "Or":
+        return any(_sel_item(x, v, roe) for x in s["xs"])
+    if t == "And":
+        return all(_sel_item(x, v, roe) for x in s["xs"])
+    raise ValueError(t)
+
+
+def sel_value(s, v):
+    """Filter(selector): a Selector object is used as it is, anything else becomes Selector(selector)"""
+    return _sel_obj(s, v) if s["s"] in SEL_OBJS else _sel_conv(s, v, True)
+
+
+def sel_shrinks(s):
+    """simpler selectors (for the minimisation of a failing input)"""
+    if "x" in s:
+        yield s["x"]
+        for y in sel_shrinks(s["x"]):
+            yield dict(s, x=y)
+    if "xs" in s:
+        for i, x in enumerate(s["xs"]):
+            yield x
+            yield dict(s, xs=s["xs"][:i] + s["xs"][i + 1:])
+            for y in sel_shrinks(x):
+                yield dict(s, xs=s["xs"][:i] + [y] + s["xs"][i + 1:])
+
+
 # ---- synthetic classes ------------------------------------------------------------------
 # attrs: {name: 0 absent | 1 non-callable value | 2 method}; "call": instances are callable.
 # Standard names have the standard signatures and leave marks; any other name with status 2 is a permissive method
@@ -596,6 +712,8 @@ def build(spec):
     if k == "var":
         return lena.variables.Variable(spec["name"], getter=ON_DATA[spec["f"]])
     if k == "filter":
+        if "sel" in spec:
+            return lena.flow.Filter(build_sel(spec["sel"]))       # a selector of any documented form
         return lena.flow.Filter(make_pred(spec["p"]))
     if k == "slice":
         return lena.flow.Slice(*spec["args"])
@@ -744,7 +862,7 @@ def ref_gen(spec, it):
             yield (g(d), c)
     elif k == "filter":
         for v in it:
-            if _pred_value(spec["p"], v):
+            if (sel_value(spec["sel"], v) if "sel" in spec else _pred_value(spec["p"], v)):
                 yield v
     elif k == "slice":
         a, b, s = norm_slice(spec["args"])
@@ -832,6 +950,8 @@ def oracle_only(specs):
             return True
         if x["k"] in ("wrap", "bcall", "freq"):
             return True         # explicit adapter objects; C callables (their semantics is Python's, not modelled)
+        if x["k"] == "filter" and "sel" in x:
+            return True         # selectors beyond a plain predicate (Selector objects, containers, Not): oracle only
     return False
 
 
@@ -1987,6 +2107,91 @@ def bufsizes_sample(rng, n):
     return sorted(bs) + [1000, None]
 
 
+def gen_sel(rng, depth=0):
+    """a selector of any documented form; predicates raise TypeError on data that is not an int"""
+    r = rng.random()
+    roe = rng.choice([False, False, True, None])
+    if depth >= 2 or r < 0.3:
+        q = rng.random()
+        if q < 0.7:
+            return {"s": "pred", "p": rng.choice(PREDS)}
+        if q < 0.85:
+            return {"s": "cls", "c": rng.choice(sorted(SEL_CLASSES))}
+        return {"s": "str", "v": rng.choice(KEYS)}
+    if r < 0.55:
+        return {"s": "S", "x": gen_sel(rng, depth + 1), "roe": roe}
+    if r < 0.65:
+        return {"s": "Not", "x": gen_sel(rng, depth + 1), "roe": roe}
+    xs = [gen_sel(rng, depth + 1) for _ in range(rng.choice([0, 1, 2, 2, 3]))]
+    if r < 0.85:
+        return {"s": rng.choice(["list", "tuple"]), "xs": xs}
+    return {"s": rng.choice(["Or", "And"]), "xs": xs, "roe": roe}
+
+
+def gen_filter(rng):
+    """a Filter from a bare predicate (modelled), or from a selector of any form (oracle only)"""
+    if rng.random() < 0.6:
+        return gen_filter(rng)
+    s = gen_sel(rng)
+    if s["s"] == "pred":
+        s = {"s": "S", "x": s, "roe": False}
+    return {"k": "filter", "sel": s}
+
+
+def _pr(p):
+    return {"s": "pred", "p": p}
+
+
+def _S(x, roe=False):
+    return {"s": "S", "x": x, "roe": roe}
+
+
+# representatives: every form, both values of raise_on_error, nested (the roe of a container reaches its raw items only)
+SEL_REPS = [
+    _S(_pr("even")), _S(_pr("even"), True), _S(_pr("lt5"), None), _S(_pr("none")),
+    {"s": "cls", "c": "int"}, _S({"s": "cls", "c": "str"}), {"s": "str", "v": "a"}, _S({"s": "str", "v": "b"}),
+    {"s": "list", "xs": [_pr("even"), {"s": "cls", "c": "str"}]}, {"s": "list", "xs": [{"s": "cls", "c": "str"}, _pr("even")]},
+    {"s": "tuple", "xs": [_pr("pos"), _pr("lt5")]}, {"s": "tuple", "xs": [{"s": "cls", "c": "int"}, _pr("even")]},
+    {"s": "list", "xs": []}, {"s": "tuple", "xs": []},
+    _S({"s": "list", "xs": [_pr("even"), _pr("lt5")]}), _S({"s": "tuple", "xs": [_pr("pos"), _pr("lt5")]}),
+    _S({"s": "list", "xs": [_pr("even"), _S(_pr("lt5"), True)]}), _S(_S(_pr("even"), True)), _S(_S(_pr("even")), True),
+    {"s": "Not", "x": _pr("even"), "roe": False}, {"s": "Not", "x": _pr("even"), "roe": True},
+    {"s": "Not", "x": _pr("lt5"), "roe": None}, {"s": "Not", "x": {"s": "list", "xs": [_pr("even"), _pr("lt5")]}, "roe": False},
+    {"s": "Not", "x": _S(_pr("even")), "roe": True},
+    {"s": "Or", "xs": [_pr("even"), _pr("lt5")], "roe": False}, {"s": "Or", "xs": [_pr("even"), _pr("lt5")], "roe": True},
+    {"s": "Or", "xs": [_S(_pr("even")), _pr("lt5")], "roe": True}, {"s": "Or", "xs": [], "roe": False},
+    {"s": "And", "xs": [_pr("pos"), _pr("lt5")], "roe": False}, {"s": "And", "xs": [_pr("pos"), _pr("lt5")], "roe": None},
+    {"s": "And", "xs": [_S(_pr("pos")), {"s": "Not", "x": _pr("lt5"), "roe": False}], "roe": True},
+    {"s": "And", "xs": [{"s": "cls", "c": "int"}, {"s": "str", "v": "a"}], "roe": False},
+]
+# values on which the predicates raise (a str, None, a list, a pair whose data is a str) among ints and (int, context) pairs
+FLOW_R = [1, 4, "s", 2, {"none": True}, {"t": [6, {"d": {"a": 1}}]}, [3], 8, {"t": ["x", {"d": {"b": 2}}]}, 3,
+          {"t": [7, {"d": {"a": 0, "b": "y"}}]}]
+FLOW_R0 = ["s", 2, 4]                 # the first value already raises
+
+
+def selfilter_cases(thorough):
+    for sel in SEL_REPS:
+        f = {"k": "filter", "sel": sel}
+        for fl in (FLOW_R, FLOW_R0, FLOW_B):
+            for acc in ((ACCS[3], ACCS[0]) if (thorough or fl is FLOW_R) else (ACCS[3],)):
+                yield {"op": "chain", "args": [f, acc], "flow": fl, "bufsizes": bufsizes_for(len(fl)) if thorough or
+                       fl is not FLOW_R else [1, 2, 5, len(fl), len(fl) + 1, 1000, None]}
+            yield {"op": "stage", "el": f, "flow": fl, "term": None}
+        yield {"op": "stage", "el": f, "flow": FLOW_R, "term": "Other:ValueError"}
+        # after a callable, before a Slice, inside a RunIf, in the post-processing part; as one of two Split branches
+        yield {"op": "chain", "args": [{"k": "call", "f": "ident"}, f, {"k": "slice", "args": [1, 5]}, ACCS[3],
+                                       {"k": "call", "f": "wrap"}, f], "flow": FLOW_R, "bufsizes": [1, 3, None]}
+        yield {"op": "chain", "args": [{"k": "runif", "p": "all", "inner": [f]}, ACCS[3]], "flow": FLOW_R,
+               "bufsizes": [1, 4, None]}
+        for b in (1, 3, None):
+            yield {"op": "split", "branches": [[{"k": "slice", "args": [2]}, ACCS[0]], [f, ACCS[3]]], "bufsize": b,
+                   "flow": FLOW_R}
+        yield {"op": "msplit", "bufsize": 2, "flow": FLOW_R,
+               "branches": [{"ty": "seq", "els": [f, tag_spec(0)]}, {"ty": "chain", "els": [f, ACCS[3], tag_spec(1)]}]}
+        yield {"op": "fillseq_init", "args": [f, ACCS[0]]}
+
+
 def gen_inner(rng, depth):
     """elements inside a RunIf: mostly stateless run/call elements; sometimes one that keeps state between the one-value
     runs (Count, an accumulator) — such chains are compared between the real drivers only"""
@@ -2004,7 +2209,7 @@ def gen_inner(rng, depth):
         elif r < 0.5:
             out.append({"k": "var", "name": rng.choice(["x", "y"]), "f": rng.choice(["inc", "neg", "ident", "mod3"])})
         elif r < 0.65:
-            out.append({"k": "filter", "p": rng.choice(PREDS)})
+            out.append(gen_filter(rng))
         elif r < 0.8:
             out.append({"k": "slice", "args": rng.choice(NONNEG_SLICES + NEG_SLICES)})
         elif r < 0.85:
@@ -2031,7 +2236,7 @@ def gen_pre_el(rng, in_scope=True):
     if r < 0.42:
         return {"k": "var", "name": rng.choice(["x", "y"]), "f": rng.choice(["inc", "neg", "ident", "mod3"])}
     if r < 0.60:
-        return {"k": "filter", "p": rng.choice(PREDS)}
+        return gen_filter(rng)
     if r < 0.76:
         return {"k": "slice", "args": rng.choice(NONNEG_SLICES)}
     if r < 0.79:
@@ -2075,7 +2280,7 @@ def gen_post_el(rng, st, in_scope=True):
     if r < 0.33:
         return {"k": "var", "name": rng.choice(["x", "y"]), "f": rng.choice(["inc", "neg", "ident", "mod3"])}
     if r < 0.45:
-        return {"k": "filter", "p": rng.choice(PREDS)}
+        return gen_filter(rng)
     if r < 0.60:
         return {"k": "slice", "args": rng.choice(NONNEG_SLICES + NEG_SLICES)}
     if r < 0.68:
@@ -2226,7 +2431,7 @@ def gen_seq_el(rng):
     if r < 0.42:
         return {"k": "var", "name": rng.choice(["x", "y"]), "f": rng.choice(["inc", "neg", "ident", "mod3"])}
     if r < 0.54:
-        return {"k": "filter", "p": rng.choice(PREDS)}
+        return gen_filter(rng)
     if r < 0.66:
         return {"k": "slice", "args": rng.choice(NONNEG_SLICES + NEG_SLICES[:3])}
     if r < 0.72:
@@ -2406,6 +2611,8 @@ def gen_cases(ctx):
         yield {"op": "split", "branches": [[{"k": "slice", "args": [2]}, ACCS[0]], [e, ACCS[3]]], "bufsize": 2, "flow": FLOW_A}
         if e["k"] != "bcall":
             yield {"op": "caps", "spec": e}
+    # Filters from selectors of every form, flows on which the predicates raise
+    yield from selfilter_cases(thorough)
     # a Split whose other branches are of any type (sequence, source, fill_request), before and after the chain
     yield from msplit_pattern_cases(thorough)
     # the flow handed over as a list / tuple / generator instead of a list iterator
@@ -2480,7 +2687,7 @@ def gen_cases(ctx):
         for b in FILLSEQ_ELS:
             yield {"op": "fillseq_init", "args": [a, b]}
     # ---- sampled ------------------------------------------------------------------------------------
-    n_rand = 2500 if not thorough else 100000
+    n_rand = 3200 if not thorough else 100000
     for _ in range(n_rand):
         in_scope = rng.random() < 0.8
         fl = gen_flow(rng)
@@ -2490,7 +2697,7 @@ def gen_cases(ctx):
         if rng.random() < 0.3:
             c["defaultbuf"] = True
         yield c
-    n_split = 800 if not thorough else 45000
+    n_split = 1000 if not thorough else 45000
     for _ in range(n_split):
         c = gen_split_case(rng, rng.random() < 0.9)
         r = rng.random()
@@ -2533,6 +2740,8 @@ def _kinds(spec, out, fine=True):
         out.append(k + ":" + spec["form"])
     elif fine and k == "bcall":
         out.append("bcall:" + spec["b"])
+    elif k == "filter" and "sel" in spec:
+        out.append("filter:" + spec["sel"]["s"] if fine else "filter:sel")
     else:
         out.append(k)
     for s in spec.get("inner", []):
@@ -2637,6 +2846,9 @@ def shrink(case):
                 for j in range(len(e["inner"])):
                     e2 = dict(e, inner=e["inner"][:j] + e["inner"][j + 1:])
                     yield dict(case, args=args[:i] + [e2] + args[i + 1:])
+            if e["k"] == "filter" and "sel" in e:
+                for y in sel_shrinks(e["sel"]):
+                    yield dict(case, args=args[:i] + [dict(e, sel=y)] + args[i + 1:])
         if len(case["bufsizes"]) > 1:
             for b in case["bufsizes"]:
                 yield dict(case, bufsizes=[b])
@@ -2645,6 +2857,9 @@ def shrink(case):
             yield dict(case, flow=case["flow"][:i] + case["flow"][i + 1:])
         if case.get("term"):
             yield dict(case, term=None)
+        if case["el"]["k"] == "filter" and "sel" in case["el"]:
+            for y in sel_shrinks(case["el"]["sel"]):
+                yield dict(case, el=dict(case["el"], sel=y))
     elif op == "fillseq_init":
         for i in range(len(case["args"])):
             yield dict(case, args=case["args"][:i] + case["args"][i + 1:])
